@@ -4,7 +4,7 @@
    order.  Theorems only; each is closed by [exact] of a lemma proved in
    Arr/Search.v or Arr/Refine.v. *)
 From Coq Require Import List NArith ZArith Bool Arith.
-From Stevia Require Import Base.Res Arr.Impl Arr.Spec Arr.Search Arr.Refine.
+From Stevia Require Import Base.Res Arr.Impl Arr.Spec Arr.Search Arr.Refine Arr.SpecLaws.
 Import ListNotations.
 Open Scope N_scope.
 
@@ -59,6 +59,51 @@ Theorem C03_get_contains : forall pbytes s value, ainv pbytes s ->
 Proof. exact aget_contains_spec. Qed.
 Print Assumptions C03_get_contains.
 
+(* the specification the refinement theorem refers to is itself a finite map keyed by the first component: over a
+   strictly ascending member list, a lookup after an insertion, removal or write through get_mut answers for the touched
+   key what was done and for every other key what it answered before; a present key is never overwritten by insert;
+   the list stays strictly ascending and its length moves by exactly one; list membership is lookup *)
+Theorem C03_spec_is_a_set : forall m, asc m ->
+  (forall c, as_find m (fst c) = None ->
+     asc (as_insert m c) /\ length (as_insert m c) = S (length m) /\
+     as_find (as_insert m c) (fst c) = Some c /\
+     forall k, k <> fst c -> as_find (as_insert m c) k = as_find m k) /\
+  (forall c, as_find m (fst c) <> None -> as_insert m c = m) /\
+  (forall k, asc (as_remove m k) /\ as_find (as_remove m k) k = None /\
+     (forall k', k' <> k -> as_find (as_remove m k) k' = as_find m k') /\
+     (as_find m k = None -> as_remove m k = m) /\
+     (as_find m k <> None -> S (length (as_remove m k)) = length m)) /\
+  (forall k new, fst new = k -> as_find m k <> None ->
+     as_find (as_update m k new) k = Some new /\ length (as_update m k new) = length m /\
+     forall k', k' <> k -> as_find (as_update m k new) k' = as_find m k') /\
+  (forall c, In c m <-> as_find m (fst c) = Some c).
+Proof. exact sorted_set_laws. Qed.
+Print Assumptions C03_spec_is_a_set.
+
+(* [set_laws m] is literally the conclusion above *)
+Theorem C03_set_laws_def : forall m, set_laws m <->
+  (forall c, as_find m (fst c) = None ->
+     asc (as_insert m c) /\ length (as_insert m c) = S (length m) /\
+     as_find (as_insert m c) (fst c) = Some c /\
+     forall k, k <> fst c -> as_find (as_insert m c) k = as_find m k) /\
+  (forall c, as_find m (fst c) <> None -> as_insert m c = m) /\
+  (forall k, asc (as_remove m k) /\ as_find (as_remove m k) k = None /\
+     (forall k', k' <> k -> as_find (as_remove m k) k' = as_find m k') /\
+     (as_find m k = None -> as_remove m k = m) /\
+     (as_find m k <> None -> S (length (as_remove m k)) = length m)) /\
+  (forall k new, fst new = k -> as_find m k <> None ->
+     as_find (as_update m k new) k = Some new /\ length (as_update m k new) = length m /\
+     forall k', k' <> k -> as_find (as_update m k new) k' = as_find m k') /\
+  (forall c, In c m <-> as_find m (fst c) = Some c).
+Proof. exact (fun m => conj (fun H => H) (fun H => H)). Qed.
+Print Assumptions C03_set_laws_def.
+
+(* in every reachable state of the concrete model the member list obeys them *)
+Theorem C03_reachable_members_are_a_set : forall pbytes pre post nslots s,
+  areach pbytes (ainit_c pre post nslots) s -> asc (aabs s) /\ set_laws (aabs s).
+Proof. exact areach_set_laws. Qed.
+Print Assumptions C03_reachable_members_are_a_set.
+
 (* non-vacuity: one-byte prefix, four slots, canary cells around the buffer *)
 Example C03_example :
   let ops := [AInsert (5, 50); AInsert (3, 30); AInsert (9, 90); AInsert (3, 31); ATake (5, 0); ADeref; ALen]%Z in
@@ -72,3 +117,10 @@ Example C03_example_state :
   let s := mkA [(7, 7)%Z] [(3, 30); (9, 90); (9, 90); (0, 0)]%Z [(8, 8)%Z] 2 in
   areach 1 (ainit_c [(7, 7)%Z] [(8, 8)%Z] 4) s /\ ainv 1 s /\ aindex s (5, 0)%Z = Ok (None, Some 1, 2).
 Proof. exact areach_example. Qed.
+
+Example C03_set_laws_example :
+  let m := [(3, 30); (5, 50); (9, 90)]%Z in
+  asc m /\ as_insert m (4, 40)%Z = [(3, 30); (4, 40); (5, 50); (9, 90)]%Z /\
+  as_insert m (5, 51)%Z = m /\ as_remove m 5%Z = [(3, 30); (9, 90)]%Z /\
+  as_update m 9%Z (9, 91)%Z = [(3, 30); (5, 50); (9, 91)]%Z /\ as_find m 4%Z = None.
+Proof. exact set_laws_example. Qed.
